@@ -4,6 +4,7 @@
 # then runs ./check <PROP> against a scratch COPY of /repo with the change applied (PYVC_REPO; /repo itself is not touched),
 # and stores patch.diff, demo.py, meta.json (+ what was run and the verdict) under /verif/seeded/<dest_id>/.
 set -u
+ROOT=$(cd "$ROOT" && pwd)
 SEED=$1; PROP=$2; DEST=/verif/seeded/$3; WT=$4
 mkdir -p "$DEST"
 cd "$WT" || exit 9
@@ -17,7 +18,7 @@ echo "demo clean rc=$clean_rc mutated rc=$mut_rc tests: $tests"
 D=$(mktemp -d /tmp/seedrepo.XXXXXX)
 cp -r /repo/pydsdl "$D/"
 ( cd "$D" && git init -q . >/dev/null 2>&1; patch -s -p1 < "$SEED/patch.diff" ) || { echo "patch does not apply to a copy of /repo"; rm -rf "$D"; exit 9; }
-cd "$(dirname "$0")/.."
+cd "$ROOT"
 out=$(PYVC_REPO=$D PYVC_CACHE_TAG=seed-$3 timeout 3000 ./check $PROP 2>&1); rc=$?; out=$(echo "$out" | grep -v "^WARNING")
 rm -rf "$D"
 echo "$out" | grep "VIOLATION\|UNDECIDED\|ENGINE-LIMIT\|BROKEN\|obligations discharged" | cut -c1-260 | head -8
